@@ -1046,6 +1046,10 @@ impl Engine for KpSim {
                     if printed == want {
                         return true;
                     }
+                    // the sign of a zero is not a matter of rounding: "-0.00" and "0.00" agree
+                    if printed.trim_start_matches('-') == want.trim_start_matches('-') && want.trim_start_matches('-').chars().all(|c| c == '0' || c == '.') {
+                        return true;
+                    }
                     // spelling of non-finite values is left open
                     let (p, w) = (printed.to_ascii_lowercase(), want.to_ascii_lowercase());
                     let norm = |s: &str| s.replace("infinity", "inf").replace('+', "");
